@@ -143,6 +143,11 @@ pub mod stdmath {
     //@extract crates/jrsonnet-stdlib/src/math.rs :: fn builtin_max
     //@extract crates/jrsonnet-stdlib/src/math.rs :: fn builtin_min
     //@extract crates/jrsonnet-stdlib/src/math.rs :: fn builtin_clamp
+    //@extract crates/jrsonnet-stdlib/src/math.rs :: fn builtin_round
+    //@extract crates/jrsonnet-stdlib/src/math.rs :: fn builtin_is_even
+    //@extract crates/jrsonnet-stdlib/src/math.rs :: fn builtin_is_odd
+    //@extract crates/jrsonnet-stdlib/src/math.rs :: fn builtin_is_integer
+    //@extract crates/jrsonnet-stdlib/src/math.rs :: fn builtin_is_decimal
 }
 
 #[cfg(kani)]
